@@ -200,14 +200,41 @@ fn var_u(mut n: u64, out: &mut Vec<u8>) {
 /// that walks blocks, clients or ranges recursively fails on these
 fn wide_update(kind: u8, n: usize) -> Vec<u8> {
     let mut b = Vec::with_capacity(n * 4 + 16);
-    match kind % 5 {
+    match kind % 8 {
+        // delete set of one client with n separate ranges in descending / interleaved / repeated
+        // order (a decoder that sorts or merges while it reads must not become quadratic)
+        5 | 6 | 7 => {
+            var_u(0, &mut b);
+            var_u(1, &mut b);
+            var_u(1, &mut b);
+            var_u(n as u64, &mut b);
+            for r in 0..n {
+                let k = match kind % 8 {
+                    5 => n - 1 - r,
+                    6 => {
+                        if r % 2 == 0 {
+                            r / 2
+                        } else {
+                            n - 1 - r / 2
+                        }
+                    }
+                    _ => r % 7,
+                };
+                var_u(2 * k as u64, &mut b);
+                var_u(1, &mut b);
+            }
+            return b;
+        }
+        _ => {}
+    }
+    match kind % 8 {
         // one client, n Skip blocks / n GC blocks of length 1
         0 | 1 => {
             var_u(1, &mut b);
             var_u(n as u64, &mut b);
             var_u(1, &mut b);
             var_u(0, &mut b);
-            let info = if kind % 5 == 0 { 10u8 } else { 0u8 };
+            let info = if kind % 8 == 0 { 10u8 } else { 0u8 };
             for _ in 0..n {
                 b.push(info);
                 b.push(1);
@@ -252,6 +279,111 @@ fn wide_update(kind: u8, n: usize) -> Vec<u8> {
     b
 }
 
+/// Families of structurally valid inputs whose size is a parameter: (entry, bytes) of family
+/// `fam` with `n` elements.  Used to compare the CPU time at two sizes ("time proportional to
+/// the input size": four times the elements must not cost much more than four times the time).
+pub const N_FAMILIES: usize = 47;
+
+pub fn scaling_input(fam: usize, n: usize) -> (u8, Vec<u8>) {
+    match fam {
+        0..=7 => (0, wide_update(fam as u8, n)),
+        8..=15 => (19, wide_update((fam - 8) as u8, n)),
+        16..=23 => {
+            // merge with an empty update
+            let mut b = vec![2u8, 0, 0];
+            b.extend_from_slice(&wide_update((fam - 16) as u8, n));
+            (15, b)
+        }
+        24..=31 => {
+            // diff against the empty state vector
+            let mut b = vec![1u8, 0];
+            b.extend_from_slice(&wide_update((fam - 24) as u8, n));
+            (17, b)
+        }
+        32..=36 => (6, wide_update((fam - 32 + 3) as u8, n)[1..].to_vec()),
+        37..=41 => {
+            let mut b = wide_update((fam - 37 + 3) as u8, n)[1..].to_vec();
+            b.push(0);
+            (4, b)
+        }
+        42 => {
+            // Any: array of n small integers
+            let mut b = vec![117u8];
+            var_u(n as u64, &mut b);
+            for _ in 0..n {
+                b.push(125);
+                b.push(1);
+            }
+            (11, b)
+        }
+        43 => {
+            let mut s = String::with_capacity(2 * n + 2);
+            s.push('[');
+            for i in 0..n {
+                if i > 0 {
+                    s.push(',');
+                }
+                s.push('1');
+            }
+            s.push(']');
+            (12, s.into_bytes())
+        }
+        44 => {
+            // state vector of n clients (descending ids)
+            let mut b = Vec::new();
+            var_u(n as u64, &mut b);
+            for c in 0..n {
+                var_u((n - c) as u64, &mut b);
+                var_u(1, &mut b);
+            }
+            (2, b)
+        }
+        45 => (13, vec![3u8; n]),
+        _ => {
+            // awareness update of n clients
+            let mut b = Vec::new();
+            var_u(n as u64, &mut b);
+            for c in 0..n {
+                var_u((n - c) as u64, &mut b);
+                var_u(1, &mut b);
+                b.push(4);
+                b.extend_from_slice(b"null");
+            }
+            (14, b)
+        }
+    }
+}
+
+/// CPU time (ms) of the shipping worker on family `fam` at `n` elements; None = not a plain
+/// value/error outcome (those are reported by the ordinary rules)
+fn scaling_cpu(w: &mut Worker, fam: usize, n: usize, slot: &Slot) -> Option<i64> {
+    let (entry, data) = scaling_input(fam, n);
+    match w.exec(entry, &data, slot) {
+        Outcome::Ok | Outcome::Err => Some(w.last_cpu),
+        _ => None,
+    }
+}
+
+pub const SCALING_N: (usize, usize) = (40_000, 160_000);
+
+/// Some(message) if family `fam` scales worse than linearly by a wide margin
+fn superlinear(w: &mut Worker, fam: usize, slot: &Slot) -> Option<String> {
+    let small = scaling_cpu(w, fam, SCALING_N.0, slot)?;
+    let large = scaling_cpu(w, fam, SCALING_N.1, slot)?;
+    if large > 250 && large > 10 * small.max(5) {
+        // once more, to rule out a hiccup of the machine
+        let small2 = scaling_cpu(w, fam, SCALING_N.0, slot)?;
+        let large2 = scaling_cpu(w, fam, SCALING_N.1, slot)?;
+        if large2 > 250 && large2 > 10 * small2.max(5) {
+            return Some(format!(
+                "{} elements take {} ms of CPU, {} elements take {} ms (second measurement: {} ms and {} ms): four times the input costs more than ten times the time",
+                SCALING_N.0, small, SCALING_N.1, large, small2, large2
+            ));
+        }
+    }
+    None
+}
+
 fn base_payload(entry: u8) -> BoxedStrategy<Vec<u8>> {
     let upd_v1 = payload_strategy().prop_map(|p| build(&p).0).boxed();
     let upd_v2 = payload_strategy()
@@ -274,7 +406,7 @@ fn base_payload(entry: u8) -> BoxedStrategy<Vec<u8>> {
                 b.push(0);
                 b
             }),
-            1 => (0u8..5, 1usize..300_000).prop_map(|(k, n)| wide_update(k, n)),
+            1 => (0u8..8, 1usize..300_000).prop_map(|(k, n)| wide_update(k, n)),
         ]
         .boxed(),
         1 | 20 => upd_v2,
@@ -429,6 +561,8 @@ pub struct Worker {
     /// into a loop in the shipping build still kills debug builds of an application); its
     /// debug-only assertion and overflow panics are not violations
     crash_only: bool,
+    /// CPU time (ms) the worker reported for the last input
+    last_cpu: i64,
     child: Child,
     stdin: ChildStdin,
     stdout: BufReader<ChildStdout>,
@@ -467,7 +601,7 @@ impl Worker {
         let stdin = child.stdin.take().unwrap();
         let stdout = BufReader::new(child.stdout.take().unwrap());
         let crash_only = path.components().any(|c| c.as_os_str() == "debug");
-        Ok(Worker { path: path.to_path_buf(), asan, crash_only, child, stdin, stdout, stderr_path })
+        Ok(Worker { path: path.to_path_buf(), asan, crash_only, last_cpu: 0, child, stdin, stdout, stderr_path })
     }
 
     fn respawn(&mut self) {
@@ -499,6 +633,7 @@ impl Worker {
                 let rss: i64 = it.next().and_then(|x| x.parse().ok()).unwrap_or(0);
                 let cpu: i64 = it.next().and_then(|x| x.parse().ok()).unwrap_or(0);
                 let detail = it.next().unwrap_or("").to_string();
+                self.last_cpu = cpu;
                 if self.crash_only {
                     // only a crash of this worker counts
                     return if outcome == "ok" { Outcome::Ok } else { Outcome::Err };
@@ -512,6 +647,12 @@ impl Worker {
                     return Outcome::Memory(rss);
                 }
                 if cpu > 20_000 && data.len() <= 256 * 1024 {
+                    return Outcome::Cpu(cpu);
+                }
+                // time proportional to the input size: the shipping build needs at most 0.13 ms
+                // of CPU per KiB on everything generated from the unchanged tree (calibration
+                // run, DESIGN section 7); 2 ms per KiB plus half a second is far outside of that
+                if !self.asan && cpu > 500 + 2 * (data.len() as i64) / 1024 {
                     return Outcome::Cpu(cpu);
                 }
                 if outcome == "ok" {
@@ -728,6 +869,35 @@ impl DynPart for Bytes {
             let st = stop.clone();
             std::thread::spawn(move || monitor(s, Duration::from_secs(60), st))
         };
+        // time proportional to the input size, family by family, on the shipping worker
+        if let Some((p, _)) = paths.iter().find(|(p, a)| !*a && !p.components().any(|c| c.as_os_str() == "debug")) {
+            if let Ok(mut w) = Worker::spawn(p, false) {
+                let slot = &slots[0];
+                let mut checked = 0u64;
+                for fam in 0..N_FAMILIES {
+                    if let Some(msg) = superlinear(&mut w, fam, slot) {
+                        let (entry, _) = scaling_input(fam, 1);
+                        let e = ENTRIES[entry as usize];
+                        let sig = format!("c10/{}/superlinear", e);
+                        if env.known.is_known(&env.property, &sig) {
+                            *rep.known_hits.entry(sig).or_default() += 1;
+                            continue;
+                        }
+                        let case = json!({"scaling_family": fam, "entry": entry, "entry_name": e, "n_small": SCALING_N.0, "n_large": SCALING_N.1});
+                        let f = Fail::new(sig.clone(), format!("{} on a family of valid inputs: {}", e, msg));
+                        let path = write_replay(env, "bytes", &case, &f, "scaling-").unwrap_or_default();
+                        rep.violations.push(Violation { sig, msg: f.msg, replay: path });
+                        stop.store(true, Ordering::Relaxed);
+                        let _ = mon.join();
+                        return rep;
+                    }
+                    checked += 1;
+                }
+                rep.counters.insert("scaling_families_compared_at_two_sizes".into(), checked);
+            }
+        }
+        let scaling_counters = rep.counters.clone();
+        let scaling_known = rep.known_hits.clone();
         let next = AtomicU64::new(0);
         let merged = Mutex::new(PartReport::new("bytes"));
         std::thread::scope(|sc| {
@@ -750,7 +920,7 @@ impl DynPart for Bytes {
                         let Ok(tree) = strategy.new_tree(&mut runner) else { continue };
                         let input = tree.current();
                         let data = input.bytes();
-                        if data.len() > 300 * 1024 {
+                        if data.len() > 1536 * 1024 {
                             continue;
                         }
                         let (o, by_asan) = exec_all(&mut workers, input.entry, &data, slot);
@@ -803,6 +973,12 @@ impl DynPart for Bytes {
         let _ = mon.join();
         let mut rep2 = merged.into_inner().unwrap();
         rep2.notes = rep.notes;
+        for (k, v) in scaling_counters {
+            rep2.counters.insert(k, v);
+        }
+        for (k, v) in scaling_known {
+            *rep2.known_hits.entry(k).or_default() += v;
+        }
         if !has_asan {
             rep2.notes.push("AddressSanitizer worker not built: memory-safety violations that do not crash are invisible".into());
         }
@@ -811,11 +987,20 @@ impl DynPart for Bytes {
 
     fn replay(&self, case: &Value) -> Result<Option<Fail>, String> {
         let entry = case["entry"].as_u64().ok_or("no entry")? as u8;
-        let data = unhex(case["bytes_hex"].as_str().ok_or("no bytes_hex")?);
         let paths = worker_paths();
         if paths.is_empty() {
             return Err("dec_worker binaries are missing".into());
         }
+        if let Some(fam) = case["scaling_family"].as_u64() {
+            let Some((p, _)) = paths.iter().find(|(p, a)| !*a && !p.components().any(|c| c.as_os_str() == "debug")) else {
+                return Err("shipping dec_worker is missing".into());
+            };
+            let mut w = Worker::spawn(p, false).map_err(|e| e.to_string())?;
+            let slot = Slot::default();
+            let e = ENTRIES[entry as usize % ENTRIES.len()];
+            return Ok(superlinear(&mut w, fam as usize % N_FAMILIES, &slot).map(|msg| Fail::new(format!("c10/{}/superlinear", e), format!("{} on a family of valid inputs: {}", e, msg))));
+        }
+        let data = unhex(case["bytes_hex"].as_str().ok_or("no bytes_hex")?);
         let mut workers: Vec<Worker> = paths.iter().filter_map(|(p, a)| Worker::spawn(p, *a).ok()).collect();
         let slot = Slot::default();
         let stop = Arc::new(std::sync::atomic::AtomicBool::new(false));
@@ -835,7 +1020,7 @@ pub fn property() -> Property {
     Property {
         id: "C10",
         level: "exploration",
-        rule: "inputs = valid payloads of every decoding entry point (21 entries: update v1/v2, state vector, snapshot, delete set, sticky index binary/JSON, Any binary/JSON, MessageReader, awareness update, merge_updates, diff_updates, encode_state_vector_from_update; updates come from the independent payload builder of C09) with 0..2 generated mutations (truncation at any prefix, bit flip, byte set, substitution/insertion of extreme var-ints {0,1,127,128,2^14,2^28,2^31-1,2^32-1,2^53,2^63,10-byte max,overlong}, splice, duplication, random bytes) plus deep-nesting builders (Any arrays/maps, JSON, nested Any inside an update) up to 60 000 levels; wide updates (up to 300 000 Skip/GC blocks, clients or delete ranges); every input is executed in an isolated process with shipping build settings, again under AddressSanitizer, and in an unoptimised build (where only a stack overflow counts), each on a 2 MiB stack; outcomes other than value/error (panic, crash/sanitizer report, >64 MiB committed memory beyond 1 KiB per input byte, >20 s CPU, hang) are violations.  Non-trivial = the decoder returned a value, or the input is a valid payload with at most one local mutation (so it passes the outer framing); distinct = distinct (entry, bytes)".into(),
+        rule: "inputs = valid payloads of every decoding entry point (21 entries: update v1/v2, state vector, snapshot, delete set, sticky index binary/JSON, Any binary/JSON, MessageReader, awareness update, merge_updates, diff_updates, encode_state_vector_from_update; updates come from the independent payload builder of C09) with 0..2 generated mutations (truncation at any prefix, bit flip, byte set, substitution/insertion of extreme var-ints {0,1,127,128,2^14,2^28,2^31-1,2^32-1,2^53,2^63,10-byte max,overlong}, splice, duplication, random bytes) plus deep-nesting builders (Any arrays/maps, JSON, nested Any inside an update) up to 60 000 levels; wide updates (up to 300 000 Skip/GC blocks, clients or delete ranges in ascending, descending, interleaved and repeated order); 47 families of valid inputs (wide updates through decode / merge / diff / state-vector extraction, delete sets, snapshots, Any arrays, JSON arrays, state vectors, message streams, awareness updates) executed at 40 000 and 160 000 elements on the shipping worker: four times the input must not cost more than ten times the CPU time (and more than 250 ms); every input is executed in an isolated process with shipping build settings, again under AddressSanitizer, and in an unoptimised build (where only a stack overflow counts), each on a 2 MiB stack; outcomes other than value/error (panic, crash/sanitizer report, >64 MiB committed memory beyond 1 KiB per input byte, >20 s CPU, CPU time above 0.5 s + 2 ms per KiB of input in the shipping build — 15x the worst rate measured on the unchanged tree —, hang) are violations.  Non-trivial = the decoder returned a value, or the input is a valid payload with at most one local mutation (so it passes the outer framing); distinct = distinct (entry, bytes)".into(),
         assumptions: vec![
             "shipping configuration decides (debug-only overflow assertions are not violations)".into(),
             "memory is what the process commits (RSS high-water growth) or fails to obtain (abort), not the size passed to a fallible try_reserve".into(),
